@@ -345,21 +345,29 @@ def edit_constant(parameterized):
     kls_params = parameterized.param.objects(instance=False)
     inst_params = parameterized._param__private.params
     updated = []
-    for pname, kls_pobj in kls_params.items():
-        if not inst_params.get(pname, kls_pobj).constant:
-            continue
-        # Only the instance-level Parameter of this object is unlocked:
-        # lowering the flag of the class Parameter would unlock the class
-        # and all its other instances for the duration of the block (and
-        # for good if they copy the Parameter meanwhile).
-        pobj = _instantiated_parameter(parameterized, kls_pobj)
-        pobj.constant = False
-        updated.append(pobj)
     try:
+        for pname, kls_pobj in kls_params.items():
+            if not inst_params.get(pname, kls_pobj).constant:
+                continue
+            # Only the instance-level Parameter of this object is unlocked:
+            # lowering the flag of the class Parameter would unlock the class
+            # and all its other instances for the duration of the block (and
+            # for good if they copy the Parameter meanwhile).
+            pobj = _instantiated_parameter(parameterized, kls_pobj)
+            updated.append(pobj)
+            pobj.constant = False
         yield
     finally:
+        # every flag is raised again, also when a watcher of the flag
+        # itself raises (the first such error is re-raised afterwards)
+        error = None
         for pobj in updated:
-            pobj.constant = True
+            try:
+                pobj.constant = True
+            except Exception as e:
+                error = error or e
+        if error is not None:
+            raise error
 
 
 @contextmanager
